@@ -722,7 +722,7 @@ package kafka
 //@   modifies heap
 //@   cancellable ctx.Done()
 
-//@ property C01
+//@ property C01 C07
 
 //@ func (*Writer).writeTimeout
 //@   pure
@@ -740,6 +740,9 @@ package kafka
 //@   modifies heap
 //@   callsite (*Client).Produce requires typeis($2.Records, "*kafka.writerRecords") && deref($2.Records, "writerRecords").index == 0
 //@   callsite (*Client).Produce requires same(deref($2.Records, "writerRecords").msgs, batch.msgs)
+// C07: the order inside a batch is the submission order - when the request is handed to the client the batch still holds
+// its messages where add() put them (nothing between the entry of produce and the call reorders or rewrites them)
+//@   callsite (*Client).Produce requires forall k :: 0 <= k && k < len(batch.msgs) ==> same(batch.msgs[k].Value, old(batch.msgs[k].Value)) && same(batch.msgs[k].Key, old(batch.msgs[k].Key)) && batch.msgs[k].Offset == old(batch.msgs[k].Offset)
 
 //@ property C05 C01
 // The record reader of a produce request hands out message i as a record whose key (value) is NULL exactly when the
